@@ -235,6 +235,14 @@ def f26_alloptions_unresolvable():
         return f"AllOptions on {o}: keys succeeds ({ks[1]}) while evaluate/validate fail ({ev}, {vl})"
 
 
+def f27_option_set_list_index():
+    o = Option("L.0")
+    r = o.set({}, 7)
+    back = outcome(lambda: o(r))
+    if back != ("ok", 7):
+        return f"Option('L.0').set({{}}, 7) = {r}, in which the option evaluates to {back} (list-indexed keys are written as mapping keys)"
+
+
 def scenarios():
     return {k: v for k, v in list(globals().items()) if k.startswith("f") and callable(v) and k[1].isdigit()}
 
